@@ -338,6 +338,8 @@ RUN_BASE = [
     ("startup_shutdown_cron", ["startup", "shutdown", "cron(*/5 * * * *)"], L(2020, 6, 15, 12, 1), 1200),
     ("list3", ["once(18:00)", "cron(30 17 * * *)", "period(now, 7 h)"], L(2020, 6, 15, 10), 2 * 86400),
     ("list_same_instant", ["once(18:00)", "cron(0 18 * * *)"], L(2020, 6, 15, 17), 2 * 86400),
+    # two @time_trigger decorators on one function (distinct instants: the union)
+    ("two_decorators", ["once(18:00)", "|", "cron(30 17 * * *)", "period(now + 20 min, 7 h)"], L(2020, 6, 15, 10), 2 * 86400),
 ]
 SKEWS = [0.0, -1e-3, -1e-6, 1e-3]
 PAD = 1807  # every window ends 30 min 7 s after its nominal length, away from any denoted instant
@@ -361,7 +363,7 @@ def scenarios(tier):
             if nowbased or name in ("cron18_plain", "period_hourly_plain"):
                 for op in OPS[1:]:
                     out.append(("trigger", name, legacy, 0.0, op))
-            if not nowbased and (tier == "thorough" or name in ("cron18_fall", "cron1_4_spring", "once18_spring", "period_hourly_fall", "once_subsecond")):
+            if not nowbased and "|" not in specs and (tier == "thorough" or name in ("cron18_fall", "cron1_4_spring", "once18_spring", "period_hourly_fall", "once_subsecond")):
                 out.append(("wait_until", name, legacy, 0.0, "none"))
     return out
 
@@ -370,7 +372,7 @@ def expected_instants(specs, startup, lo, hi, loc):
     """Denoted instants of the list in (lo, hi] plus startup itself when now-based, as [(label, real utc, kind)]."""
     out = []
     for spec in specs:
-        if spec in ("startup", "shutdown"):
+        if spec in ("startup", "shutdown", "|"):
             continue
         kind = spec_kind(spec)
         t = lo
@@ -472,7 +474,14 @@ def spec_is_timeonly_period(spec):
 def source(mode, specs):
     args = ", ".join(repr(s) for s in specs)
     if mode == "trigger":
-        return f"runs = []\n@time_trigger({args})\ndef f(trigger_time=None, trigger_type=None, **kw):\n    runs.append((trigger_type, trigger_time))\n"
+        groups = [[]]
+        for sp in specs:
+            if sp == "|":
+                groups.append([])
+            else:
+                groups[-1].append(sp)
+        decos = "".join("@time_trigger(" + ", ".join(repr(x) for x in g) + ")\n" for g in groups)
+        return f"runs = []\n{decos}def f(trigger_time=None, trigger_type=None, **kw):\n    runs.append((trigger_type, trigger_time))\n"
     return (f"runs = []\n@service\ndef waiter():\n    for i in range(4):\n        r = task.wait_until(time_trigger=[{args}])\n"
             "        runs.append((r.get('trigger_type'), r.get('trigger_time')))\n")
 
